@@ -502,7 +502,7 @@ func runTrace(job Job) (out TraceOut) {
 			return
 		}
 		pid, err := syscall.ForkExec(self, []string{self, "child", string(specJSON)}, &syscall.ProcAttr{
-			Env:   append(os.Environ(), "GOMAXPROCS=4"),
+			Env:   append(os.Environ(), "GOMAXPROCS=2"),
 			Files: []uintptr{0, w.Fd(), 2},
 			Sys:   &syscall.SysProcAttr{Ptrace: true},
 		})
@@ -586,7 +586,11 @@ func runTrace(job Job) (out TraceOut) {
 			break
 		}
 		if wpid == 0 {
-			time.Sleep(10 * time.Microsecond)
+			if t.job.Barrier && !t.released {
+				time.Sleep(300 * time.Microsecond)
+			} else {
+				time.Sleep(20 * time.Microsecond)
+			}
 			continue
 		}
 		th := t.threads[wpid]
